@@ -98,6 +98,26 @@ def make_docs(rng, n, base):
                     o.explicit_actions = [t.id]
                     d.bad_ref = "actions: [%s] (a %s)" % (t.id, t.cls)
                     d.print(rng)
+        if i % 10 in (1, 6) and not d.dup_id and not d.bad_ref:
+            # an action declared inside an object that cannot hold children (a static separator, an action, a spacer - think of a
+            # misplaced brace) and named in an `actions` list elsewhere: rejected, or the reference denotes a declared object
+            from ..gen_doc import Binding, Obj
+            objs = d.objects()
+            hosts = [o for o in objs if o.kind in ("action", "separator", "spacer") and not o.children]
+            holders = [o for o in objs if o.kind in ("widget", "menu") and not any(getattr(b, "path", None) == ("actions",) for b in o.bindings)
+                       and getattr(o, "explicit_actions", None) is None]
+            if hosts and holders:
+                h, o = rng.choice(hosts), rng.choice(holders)
+                c = Obj("QAction", "action")
+                c.id = "stray%d" % i
+                c.parent = h
+                h.children.append(c)
+                b = Binding(("actions",), "[%s]" % c.id, "const", ("actions", [c.id]))
+                b.owner = o
+                b.surface = "pseudo"
+                o.bindings.append(b)
+                o.explicit_actions = [c.id]
+                d.print(rng)
         d.dir = os.path.join(base, "p%d" % i)
         os.makedirs(d.dir, exist_ok=True)
         with open(os.path.join(d.dir, "Main.qml"), "w") as f:
